@@ -2483,6 +2483,9 @@ func (self *TextServerProtocol) ProcessLockCommand(lockCommand *protocol.LockCom
 }
 
 func (self *TextServerProtocol) ProcessLockResultCommand(lockCommand *protocol.LockCommand, result uint8, lcount uint16, lrcount uint8, data []byte) error {
+	if self.closed {
+		return errors.New("Protocol Closed")
+	}
 	self.lockRequestId[0], self.lockRequestId[1], self.lockRequestId[2], self.lockRequestId[3], self.lockRequestId[4], self.lockRequestId[5], self.lockRequestId[6], self.lockRequestId[7],
 		self.lockRequestId[8], self.lockRequestId[9], self.lockRequestId[10], self.lockRequestId[11], self.lockRequestId[12], self.lockRequestId[13], self.lockRequestId[14], self.lockRequestId[15] =
 		0, 0, 0, 0, 0, 0, 0, 0,
@@ -2695,6 +2698,7 @@ func (self *TextServerProtocol) commandHandlerLock(_ *TextServerProtocol, args [
 			}
 			self.glock.Unlock()
 		}
+		lockCommand.CommandType = protocol.COMMAND_LOCK
 		_ = self.willCommands.Push(lockCommand)
 		return self.stream.WriteBytes(self.parser.BuildResponse(true, "OK", nil))
 	}
@@ -2740,6 +2744,7 @@ func (self *TextServerProtocol) commandHandlerUnlock(_ *TextServerProtocol, args
 			}
 			self.glock.Unlock()
 		}
+		lockCommand.CommandType = protocol.COMMAND_UNLOCK
 		_ = self.willCommands.Push(lockCommand)
 		return self.stream.WriteBytes(self.parser.BuildResponse(true, "OK", nil))
 	}
